@@ -24,6 +24,7 @@ CHECKS = {
     'C14': ('exploration', 'exact (Fraction) clock model over operation sequences with a scripted real-time source; SynchronizedClock compared with the last step time', 'model-based property testing (Hypothesis) over operation sequences'),
     'C16': ('exploration', 'dict-based edit model applies the documented effect of each call; public observation compared after every operation, failed edits must change nothing', 'model-based stateful property testing (Hypothesis) over edit sequences'),
     'C17': ('exploration', 'metamorphic: run of the renamed chart == original run with names substituted; host run == guest run mapped by the renaming function', 'metamorphic property testing (Hypothesis)'),
+    'C15': ('exploration', 'model of the binding table plus one queue model per interpreter predicts deliveries to callables and every later consumed event; final drain', 'model-based property testing (Hypothesis) over bind/detach/queue/step sequences'),
 }
 NOT_YET = 'check not built yet in this round (planned, see DESIGN.md section 4)'
 
